@@ -1,0 +1,110 @@
+// Copyright 2026 Dolthub, Inc.
+//
+// Licensed under the Apache License, Version 2.0 (the "License");
+// you may not use this file except in compliance with the License.
+// You may obtain a copy of the License at
+//
+//     http://www.apache.org/licenses/LICENSE-2.0
+//
+// Unless required by applicable law or agreed to in writing, software
+// distributed under the License is distributed on an "AS IS" BASIS,
+// WITHOUT WARRANTIES OR CONDITIONS OF ANY KIND, either express or implied.
+// See the License for the specific language governing permissions and
+// limitations under the License.
+
+//go:build verif
+
+package nbs
+
+import (
+	"encoding/binary"
+
+	"github.com/dolthub/dolt/go/store/hash"
+)
+
+// Verification vocabulary (ghost code, compiled only with -tags verif). The
+// bodies are executable so that contracts can also be run concretely.
+
+func verif_old[T any](x T) T { return x }
+
+func verif_res[T any](i int) T { var z T; return z }
+
+func verif_implies(a, b bool) bool { return !a || b }
+
+func verif_forall(lo, hi int, f func(int) bool) bool {
+	for k := lo; k < hi; k++ {
+		if !f(k) {
+			return false
+		}
+	}
+	return true
+}
+
+func verif_exists(lo, hi int, f func(int) bool) bool {
+	for k := lo; k < hi; k++ {
+		if f(k) {
+			return true
+		}
+	}
+	return false
+}
+
+func verif_assert(b bool) {
+	if !b {
+		panic("verif_assert failed")
+	}
+}
+
+func verif_assume(b bool) {}
+
+// ---- abstract view of an on-heap table index
+
+// verif_pfx is the 8-byte address prefix stored in prefix tuple |k|.
+func verif_pfx(ti onHeapTableIndex, k uint32) uint64 {
+	o := prefixTupleSize * int64(k)
+	return binary.BigEndian.Uint64(ti.prefixTuples[o : o+hash.PrefixLen])
+}
+
+// verif_ord is the chunk ordinal stored in prefix tuple |k|.
+func verif_ord(ti onHeapTableIndex, k uint32) uint32 {
+	o := prefixTupleSize*int64(k) + hash.PrefixLen
+	return binary.BigEndian.Uint32(ti.prefixTuples[o : o+ordinalSize])
+}
+
+// verif_wf_index states the length facts newOnHeapTableIndex establishes.
+func verif_wf_index(ti onHeapTableIndex) bool {
+	n := uint64(ti.count)
+	return uint64(len(ti.prefixTuples)) == prefixTupleSize*n &&
+		uint64(len(ti.suffixes)) == hash.SuffixLen*n &&
+		uint64(len(ti.offsets1)) == offsetSize*(n-n/2) &&
+		uint64(len(ti.offsets2)) >= offsetSize*(n/2)
+}
+
+// verif_sorted: prefixes are non-decreasing.
+func verif_sorted(ti onHeapTableIndex) bool {
+	return verif_forall(0, int(ti.count), func(a int) bool {
+		return verif_forall(a, int(ti.count), func(b int) bool {
+			return verif_pfx(ti, uint32(a)) <= verif_pfx(ti, uint32(b))
+		})
+	})
+}
+
+// verif_ords_ok: every stored ordinal is a valid chunk ordinal.
+func verif_ords_ok(ti onHeapTableIndex) bool {
+	return verif_forall(0, int(ti.count), func(k int) bool {
+		return verif_ord(ti, uint32(k)) < ti.count
+	})
+}
+
+// verif_sfxmatch: the 12-byte suffix stored for ordinal |o| equals the suffix of |h|.
+func verif_sfxmatch(ti onHeapTableIndex, o uint32, h *hash.Hash) bool {
+	base := uint64(o) * hash.SuffixLen
+	return verif_forall(0, hash.SuffixLen, func(i int) bool {
+		return ti.suffixes[base+uint64(i)] == h[hash.PrefixLen+i]
+	})
+}
+
+// verif_present: prefix tuple |k| is an entry for address |h|.
+func verif_present(ti onHeapTableIndex, h *hash.Hash, k uint32) bool {
+	return verif_pfx(ti, k) == h.Prefix() && verif_sfxmatch(ti, verif_ord(ti, k), h)
+}
